@@ -77,6 +77,7 @@ def step? : Sexp → Option Step
   | .list [.atom "enter", .atom v] => do pure (.enter (← v.toNat?))
   | .list (.atom "edits" :: .atom v :: es) => do pure (.edits (← v.toNat?) (← es.mapM edit?))
   | .list [.atom "exit", .atom v] => do pure (.exit (← v.toNat?))
+  | .list [.atom "exit-raised", .atom v] => do pure (.exitRaised (← v.toNat?))
   | _ => none
 
 end C17D
@@ -111,7 +112,8 @@ def handleC17 (cmd : String) (args : List Sexp) : Option Sexp :=
       let os ← os.mapM C17D.st?; let ss ← ss.mapM C17D.step?
       match runSteps (World.init os) ss with
       | .error e => pure (C02D.errSexp e)
-      | .ok w => pure (tagged "ok" ((List.range os.length).map fun v => C17D.stSexp (w.stOf v)))
+      | .ok w => pure (tagged "ok" (((List.range os.length).map fun v => C17D.stSexp (w.stOf v)) ++
+          [tagged "queues" ((List.range os.length).map fun v => .atom (toString (w.objs (w.var v)).queue.length))]))
   | "c17.temp", [.atom name, c, .list (.atom "edits" :: es), s] => do
       let c ← C17D.call? c; let s ← C17D.st? s; let es ← es.mapM C17D.edit?
       match withTempBlock name c es s with
